@@ -14,6 +14,8 @@ import (
 	"io"
 	"math/rand"
 	"os"
+	"os/exec"
+	"strings"
 	"testing/iotest"
 
 	"github.com/iotaledger/hive.go/serializer/v2"
@@ -323,6 +325,54 @@ func readVia(h helper, signed bool, data []byte, measure bool, mk func() (io.Rea
 		g.Ok, g.V, g.Used = true, val, pos() // (for PeekSize: the position after it seeked back)
 	}
 	return g
+}
+
+// claims returns the value of h's length prefix in data (0 if h has none / data is too short).
+func claims(h helper, data []byte) uint64 {
+	if !hasPrefix(h) || len(data) < h.A {
+		return 0
+	}
+	return leU64(data[:h.A])
+}
+
+// readIsolated performs the read in a child process: a helper that allocates what a hostile prefix
+// claims can kill the whole process ("fatal error: runtime: out of memory" cannot be recovered).
+func readIsolated(h helper, signed bool, data []byte, chunks []int) got {
+	f, err := os.CreateTemp("", "w2-case-*.json")
+	if err != nil {
+		panic(err)
+	}
+	defer os.Remove(f.Name())
+	b, _ := json.Marshal(streamCase{H: h, Signed: signed, Input: fromBytes(data), Reader: "chunks", Chunks: chunks, Want: wantOutcome{V: []int{}}})
+	f.Write(b)
+	f.Close()
+	out, err := exec.Command(os.Args[0], "stream-one", f.Name(), "-json").CombinedOutput()
+	for _, line := range strings.Split(string(out), "\n") {
+		if strings.HasPrefix(line, "GOT ") {
+			var g struct {
+				got
+				Err   string
+				Alloc uint64
+			}
+			if json.Unmarshal([]byte(line[4:]), &g) == nil {
+				g.got.Err, g.got.Alloc = g.Err, g.Alloc
+				if g.got.V == nil {
+					g.got.V = []int{}
+				}
+				return g.got
+			}
+		}
+	}
+	msg := "child process died"
+	if i := strings.Index(string(out), "fatal error:"); i >= 0 {
+		msg = strings.SplitN(string(out)[i:], "\n", 2)[0] + " (not recoverable: the process dies)"
+	}
+	return got{V: []int{}, Panic: msg, Alloc: 1 << 30}
+}
+
+// dangerous: a byte-string helper whose prefix claims more than the address space can give.
+func dangerous(h helper, data []byte) bool {
+	return (h.H == "BytesSz" || h.H == "ObjSz") && claims(h, data) >= 1<<33
 }
 
 func viaChunks(data []byte, chunks []int) func() (io.Reader, func() int) {
@@ -709,7 +759,12 @@ func cmdStreamRecords(args []string) int {
 			data = toBytes(jsonRound(randBytes(r, r.Intn(12))))
 		}
 		ch := randomChunks(r, len(data), 1+r.Intn(9))
-		g := readVia(h, signed, data, true, viaChunks(data, ch))
+		var g got
+		if dangerous(h, data) {
+			g = readIsolated(h, signed, data, ch)
+		} else {
+			g = readVia(h, signed, data, true, viaChunks(data, ch))
+		}
 		if g.Alloc > allocBound(len(data)) {
 			allocSeen++
 		}
@@ -768,6 +823,15 @@ func cmdStreamOne(args []string) int {
 		g = readVia(h, c.Signed, data, true, viaIotest(data, func(r io.Reader) io.Reader { return iotest.DataErrReader(iotest.OneByteReader(r)) }))
 	default:
 		g = readVia(h, c.Signed, data, true, viaChunks(data, c.Chunks))
+	}
+	if len(args) > 1 && args[1] == "-json" {
+		b, _ := json.Marshal(struct {
+			got
+			Err   string
+			Alloc uint64
+		}{g, g.Err, g.Alloc})
+		fmt.Println("GOT " + string(b))
+		return 0
 	}
 	want := parseWant(c.Want)
 	class, text := judge(g, want, len(data), len(c.Chunks) > 1 || c.Reader != "whole")
